@@ -487,8 +487,9 @@ def eval_history(lines, marks, out, stats, live=None):
             if ans.startswith("panic"):
                 return f"{op}: {ans}", a
             f = op.split()
-            stats["ops"][f[0]] = stats["ops"].get(f[0], 0) + 1
-            stats["outcomes"][f"{f[0]}:{ans[:24]}"] = stats["outcomes"].get(f"{f[0]}:{ans[:24]}", 0) + 1
+            if f[0] != "tabs":
+                stats["ops"][f[0]] = stats["ops"].get(f[0], 0) + 1
+                stats["outcomes"][f"{f[0]}:{ans[:24]}"] = stats["outcomes"].get(f"{f[0]}:{ans[:24]}", 0) + 1
             last_op = (op, ans, a)
         elif kind == "tabs":
             P = parse_tabs(out[a])[0]
@@ -622,6 +623,18 @@ def explore_once(ctx, res, tier):
                     continue
                 add("exh", [c[3] for c in combo], ids=ids, seq=list(combo))
                 n_exh += 1
+    # three chains running (two with groups, one waiting for its DKG / with a group), then every sequence of 1–2 calls
+    A3 = macro_ops(gen, IDS)
+    byname = {(t, x): m for m in A3 for t, x in [(m[0], m[1])]}
+    for base in ([("load1", "default"), ("load1", "foo"), ("loadF", "bar")], [("load2", "default"), ("loadF", "foo"), ("load1", "bar")]):
+        prefix = [byname[b] for b in base]
+        for d in (1, 2) if tier != "quick" or base[0][0] == "load1" else (1,):
+            for combo in itertools.product(A3, repeat=d):
+                seq = prefix + list(combo)
+                if not within_assumptions(seq):
+                    continue
+                add("exh3", [c[3] for c in seq], seq=seq)
+                n_exh += 1
     n_rand = 150 if tier == "quick" else 3000
     for i in range(n_rand):
         r = rng.fork(f"rand{i}")
@@ -689,7 +702,7 @@ def explore_once(ctx, res, tier):
                                 "note": f"correspondence 'route' no longer checks ({tag} history); the routing oracle accepts the implementation's answers on the histories within the property's assumptions"}
                 else:
                     validated += 1
-            if len(samples) < 4 and tag in ("exh", "rand", "boot", "malformed") and not any(s["kind"] == tag for s in samples):
+            if len(samples) < 5 and tag in ("exh", "exh3", "rand", "boot", "malformed") and not any(s["kind"] == tag for s in samples):
                 k = next((n for n, l in enumerate(lines) if l.startswith("req foo ") and not out[n].startswith("id=err")), 0)
                 samples.append({"kind": tag, "control_calls": [l for g in groups for l in g][:8],
                                 "probe": lines[k], "impl": out[k][:300]})
